@@ -3037,7 +3037,7 @@ func (p *Parser) parseDropLocalityGroup(pos token.Pos) *ast.DropLocalityGroup {
 func (p *Parser) parseCreatePlacement(pos token.Pos) *ast.CreatePlacement {
 	p.expectKeywordLike("PLACEMENT")
 	name := p.parseIdent()
-	options := p.parseOptions()
+	options := p.tryParseOptions()
 
 	return &ast.CreatePlacement{
 		Create:  pos,
@@ -3245,7 +3245,7 @@ func (p *Parser) parseCreateSequence(pos token.Pos) *ast.CreateSequence {
 	ifNotExists := p.parseIfNotExists()
 	name := p.parsePath()
 	params := p.parseSequenceParams()
-	options := p.parseOptions()
+	options := p.tryParseOptions()
 
 	return &ast.CreateSequence{
 		Create:      pos,
